@@ -15,10 +15,18 @@ def dt0(vf, initial_values: Sequence, /, scale=0.01, nugget=1e-5, **vf_kwargs):
     u0, _ = tree.ravel_pytree(u0)
     f0, _ = tree.ravel_pytree(f0)
 
-    norm_y0 = linalg.vector_norm(u0) + nugget
-    norm_dy0 = linalg.vector_norm(f0) + nugget
+    norm_y0 = _vector_norm_no_overflow(u0) + nugget
+    norm_dy0 = _vector_norm_no_overflow(f0) + nugget
 
     return scale * norm_y0 / norm_dy0
+
+
+def _vector_norm_no_overflow(x, /):
+    """Compute the Euclidean norm without squaring badly scaled entries."""
+    # Divide by the largest magnitude first so that the squares stay in range
+    magnitude = np.amax(np.abs(x))
+    magnitude = np.where(magnitude > 0.0, magnitude, 1.0)
+    return magnitude * linalg.vector_norm(x / magnitude)
 
 
 def dt0_adaptive(
